@@ -13,14 +13,28 @@ impl Clone for Leaf { fn clone(&self) -> Leaf { Leaf(Rc::new(RefCell::new(self.0
 impl Iterator for Leaf { type Item = i64; fn next(&mut self) -> Option<i64> { self.0.borrow_mut().pop_front() } }
 pub type Leaves = Vec<Rc<RefCell<VecDeque<i64>>>>;
 
-pub trait DynObj { fn pull(&mut self) -> Option<i64>; fn box_clone(&self) -> Box<dyn DynObj>; }
+pub trait DynObj {
+    fn pull(&mut self) -> Option<i64>;
+    fn box_clone(&self) -> Box<dyn DynObj>;
+    fn as_any(&self) -> &dyn std::any::Any;
+    /// `Clone::clone_from` of the concrete adapter when `other` has the same concrete type (the glue must be
+    /// transparent for the defaulted trait methods too: an adapter may specialise `clone_from`)
+    fn clone_from_dyn(&mut self, other: &dyn DynObj) -> bool;
+}
 impl<S: Source<Output = i64> + Clone + 'static> DynObj for S {
     fn pull(&mut self) -> Option<i64> { self.source() }
     fn box_clone(&self) -> Box<dyn DynObj> { Box::new(self.clone()) }
+    fn as_any(&self) -> &dyn std::any::Any { self }
+    fn clone_from_dyn(&mut self, other: &dyn DynObj) -> bool {
+        if let Some(o) = other.as_any().downcast_ref::<S>() { self.clone_from(o); true } else { false }
+    }
 }
 pub struct DynSrc(Box<dyn DynObj>);
 impl DynSrc { pub fn new<S: Source<Output = i64> + Clone + 'static>(s: S) -> DynSrc { DynSrc(Box::new(s)) } }
-impl Clone for DynSrc { fn clone(&self) -> DynSrc { DynSrc(self.0.box_clone()) } }
+impl Clone for DynSrc {
+    fn clone(&self) -> DynSrc { DynSrc(self.0.box_clone()) }
+    fn clone_from(&mut self, src: &DynSrc) { if !self.0.clone_from_dyn(&*src.0) { self.0 = src.0.box_clone(); } }
+}
 impl Source for DynSrc { type Output = i64; fn source(&mut self) -> Option<i64> { self.0.pull() } }
 
 #[derive(Clone, Debug, PartialEq)]
